@@ -4,6 +4,7 @@
 # usage: tools/selftest.sh [pattern]
 cd /verif || exit 2
 ./setup.sh >/dev/null || exit 2
+if [ -n "$(git -C /repo status --porcelain)" ]; then echo "refusing to run: /repo has uncommitted changes (this script reverts the working tree)"; exit 2; fi
 fail=0
 for d in selftest/mutants/${1:-*}.diff; do
   name=$(basename "$d" .diff); prop=${name%%-*}
